@@ -12,6 +12,7 @@ FINDINGS = {
     'F-C08-1': 'a server opens a stream with send_headers (an even, never-promised stream id is accepted and HEADERS emitted)',
     'F-C08-2': 'DATA or END_STREAM is emitted before any response headers on a stream the peer opened',
     'F-C08-3': 'a client-side connection that has not opened a stream yet emits ALTSVC (advertise_alternative_service accepted in state IDLE)',
+    'F-C08-4': 'a 1xx header list spelled with an upper-case or padded pseudo-header name is not recognised as informational (the test runs before normalisation): it is emitted as a final header block, END_STREAM included',
 }
 
 
@@ -19,6 +20,16 @@ def is_info(hs):
     for n, v, _ in hs:
         if bytes(n).lower().strip() == b':status':
             return bytes(v).strip()[:1] == b'1'
+    return False
+
+
+def is_info_as_given(hs):
+    """what the library sees before normalisation"""
+    for n, v, _ in hs:
+        if bytes(n)[:1] != b':':
+            return False
+        if bytes(n) == b':status':
+            return bytes(v)[:1] == b'1'
     return False
 
 
@@ -47,6 +58,9 @@ def oracle(p):
                 V('a client opened a stream with a header block that is not a request', {'stream': sid})
             if s['ended']:
                 V('headers emitted after the stream was ended locally', {'stream': sid})
+            if info and not is_info_as_given(hs):
+                V(FINDINGS['F-C08-4'], {'stream': sid, 'end_stream': es})
+                info = False
             if info:
                 if s['phase'] not in ('start', 'info'):
                     V('an informational response emitted after the final response', {'stream': sid})
